@@ -138,14 +138,17 @@ def run(ctx):
     ctx.exhaustive = False
     total = 0
     first = True
+    # vacuity guard: every action of the cv pipeline and every transformation is taken (TLC -coverage on a
+    # tiny configuration: coverage output of long runs is too large to parse)
+    r = ctx.tlc('MC_CalcRdm', C.cfg(mode='cv', nobs=4, nch=2, nlab=2, nfold=2, datasrc='cat', dataids=(3,),
+                                    methods=('crossnobis',), fprecids=(0, 2), foldsrcs=('explicit', 'default'),
+                                    permlevel=1, emit=False), name='cv_cov', workers=4, coverage=True, timeout=900)
+    ctx.require_coverage(r, ['DefaultFolds', 'ExplicitFolds', 'SortByCond', 'FoldMeans', 'PairProducts',
+                             'AverageFoldPairs', 'BuildCv', 'PermuteRows', 'RelabelFolds', 'PermuteChannels'])
     for name, kw, nfloat in runs:
-        cov = name == 'cv_perm'
-        r = ctx.tlc('MC_CalcRdm', C.cfg(**kw), name=name, workers=W, timeout=1700, coverage=cov)
+        r = ctx.tlc('MC_CalcRdm', C.cfg(**kw), name=name, workers=W, timeout=1700)
         if not r.n_emitted:
             raise MachineryError(f'TLC emitted no vectors in {name}')
-        if cov:
-            ctx.require_coverage(r, ['DefaultFolds', 'ExplicitFolds', 'SortByCond', 'FoldMeans', 'PairProducts',
-                                     'AverageFoldPairs', 'BuildCv', 'PermuteRows', 'RelabelFolds', 'PermuteChannels'])
         if first:
             binding_selftest(ctx, r, PID)
             first = False
